@@ -27,6 +27,7 @@ var c10Plan = []planEntry{
 	{spaces.XEnt, 5, 6},
 	{spaces.XEol, 5, 6},
 	{spaces.XNul, 5, 6},
+	{spaces.XPhrase, 4, 5},
 }
 
 type filterPred struct {
@@ -51,16 +52,57 @@ var c10Filters = []filterPred{
 	{"set{a,em,li,img,hr,br,code,p}", nameSet("a", "em", "li", "img", "hr", "br", "code", "p")},
 }
 
+var spDest = spaces.Space{Name: "destinations", Doc: "link destination characters", Tokens: []string{"a", "%", "2", "G", "f", " ", "\u00e9", "&", "\"", "/", "#", "(", ")", "\\", "\u0141"}}
+
 func init() {
+	spaces.All = append(spaces.All, spDest)
 	register(&Check{
 		ID:   "C10",
-		Rule: "every token sequence up to the stated length over each declared alphabet is parsed; the tree is rendered under 36 configurations (3 soft-break behaviours x IgnoreRaw x 6 FilterTag predicates) by the real renderer and by the reference reading of the tree; non-trivial = the tree contains a node kind other than paragraph/text, or the outputs differ between configurations",
+		Rule: "every token sequence up to the stated length over each declared alphabet is parsed; the tree is rendered under 36 configurations (3 soft-break behaviours x IgnoreRaw x 6 FilterTag predicates, plus a nil ReferenceMap) by the real renderer and by the reference reading of the tree; non-trivial = the tree contains a node kind other than paragraph/text, or the outputs differ between configurations",
 		Assumptions: []string{
 			"reference renderer reads the tree through public accessors only; escape sets and spellings follow the library's documented/evident choices (calibration log in DESIGN.md)",
 			"with a non-nil FilterTag outputs are compared modulo '&lt;' vs '<' (which '<' gets escaped is C17's subject)",
 		},
 		Run: func(c *Ctx) {
 			c.forPlan(c10Plan, c10Driver)
+			// Destinations: every string over the URI alphabet as link destination
+			// (bare or in angle brackets, whichever can spell it), image source,
+			// reference definition and autolink.
+			n := c.Pick(4, 5)
+			c.Explore("destinations", fmt.Sprintf("every string of <=%d tokens over %q as destination of an inline link, an image, a reference definition and (with a scheme) an autolink", n, spDest.Tokens), -1, n, func(x *X) {
+				d := string(x.Tokens(spDest, n))
+				if d == "" {
+					return
+				}
+				var doc string
+				switch x.ChooseFree(4) {
+				case 0:
+					if strings.ContainsAny(d, " ()<") {
+						if strings.ContainsAny(d, "<>") {
+							return
+						}
+						doc = "[a](<" + d + ">)\n"
+					} else {
+						doc = "[a](" + d + ")\n"
+					}
+				case 1:
+					if strings.ContainsAny(d, "<> ") {
+						return
+					}
+					doc = "![a](<" + d + "> \"t\")\n"
+				case 2:
+					if strings.ContainsAny(d, "<> ") {
+						return
+					}
+					doc = "[a]\n\n[a]: " + d + "\n"
+				default:
+					if strings.ContainsAny(d, "<> ") {
+						return
+					}
+					doc = "<a:" + d + ">\n"
+				}
+				c10Driver(x, []byte(doc))
+			})
 		},
 	})
 }
@@ -136,6 +178,21 @@ func c10Driver(x *X, in []byte) {
 				}
 			}
 		}
+	}
+	// A renderer whose ReferenceMap lacks the document's definitions (the zero
+	// HTMLRenderer is a usable value): the reference reading looks the label up
+	// in the same (empty) map.
+	if len(refs) > 0 {
+		for sb := 0; sb < 3; sb += 2 {
+			cfg := fmt.Sprintf("SoftBreak=%d,IgnoreRaw=false,Filter=nil,ReferenceMap=nil", sb)
+			got, _ := renderHTML(&cm.HTMLRenderer{SoftBreakBehavior: cm.SoftBreakBehavior(sb)}, blocks)
+			want := ref.Render(blocks, ref.RenderConfig{SoftBreak: sb})
+			if got != want {
+				x.Fail("output-differs-from-tree-reading", cfg, in, "Render wrote %q; direct reading of the tree gives %q", got, want)
+				return
+			}
+		}
+		x.Count("inputs_rendered_without_their_reference_map")
 	}
 	var def bytes.Buffer
 	if err := cm.RenderHTML(&def, blocks, refs); err != nil {
